@@ -101,6 +101,11 @@ type connReqState struct {
 	hdrs      map[uint32]int
 	srvGoAway bool
 	timeouts  map[uint32]bool
+	// suspect: the tap reported a stream-level parse error on this connection.
+	// After such an error the shared tap may deliver its events one frame late
+	// (it does not drain a CONTINUATION that followed the broken HEADERS), so
+	// "delivered before the handler started" is no longer a reliable fact.
+	suspect bool
 }
 
 // reqLog classifies delivered request headers (oracle side of C12 / C26).
@@ -189,6 +194,9 @@ func (l *reqLog) delivered(f *tap.Frame) {
 	}
 	id := f.StreamID
 	c.hdrs[id]++
+	if f.HdrInvalid {
+		c.suspect = true
+	}
 	if c.hdrs[id] > 1 || f.HdrInvalid {
 		// a second header block, or a stream error reported by the frame parser
 		// (the tap reports every stream-level parse error as an invalid HEADERS)
@@ -210,7 +218,9 @@ func (l *reqLog) delivered(f *tap.Frame) {
 	} else if id <= c.maxAny {
 		r.Ambig = true // below an id that only a malformed header block used
 	}
-	if id > c.maxGood {
+	if id > c.maxGood && id%2 == 1 {
+		// only a legal id opens a stream; an even id is a connection error and
+		// does not move the highest stream id the client has opened
 		c.maxGood = id
 	}
 	valid := len(r.Illegal) == 0 && !r.Ambig
@@ -278,12 +288,15 @@ func (l *reqLog) delivered(f *tap.Frame) {
 		r.Tag, r.HaveTag = ParseTag(tags[0])
 	}
 	r.Valid = valid && len(r.Illegal) == 0 && !r.Ambig && r.HaveTag
-	if r.Valid && l.w.cfg.MaxStreams > 0 && !c.srvGoAway {
+	if r.Valid && l.w.cfg.MaxStreams > 0 && !c.srvGoAway && !c.suspect {
 		// REFUSED_STREAM clause: how many streams are certainly still active on
 		// this connection right now? Parked handlers whose streams the peer has
 		// not touched since their HEADERS (no RST, no DATA, no deadline).
 		n := 0
 		for _, h := range l.w.Inv {
+			if l.w.unparked {
+				break // released handlers may finish at any moment from now on
+			}
 			if h.Conn != f.Conn || !h.Parked || h.Released || h.Returned || !h.HaveTag {
 				continue
 			}
@@ -328,27 +341,47 @@ func (l *reqLog) invoked(h *HInv) {
 		e.Violate("handler_for_illegal_request", "a handler (%s %q) ran for request tag %d, which the peer sent only inside a header block with: %s", h.Kind, h.Method, h.Tag, strings.Join(why, ","))
 	}
 	recs := l.byTag[h.Tag]
-	if len(recs) == 0 {
-		if len(l.intent[h.Tag]) == 0 {
-			e.Violate("handler_without_request", "a handler (%s %q) ran with request tag %d, but no well-formed request header block with that tag was delivered to the server", h.Kind, h.Method, h.Tag)
-		}
-		return
-	}
-	legal := 0
-	var why []string
-	for _, r := range recs {
-		if len(r.Illegal) == 0 {
-			legal++
-		} else {
-			why = append(why, fmt.Sprintf("conn %d stream %d: %s", r.Conn, r.Stream, strings.Join(r.Illegal, ",")))
-		}
-	}
-	if n := len(l.w.invByTag[h.Tag]); n > legal {
-		e.Violate("handler_for_illegal_request", "handler invocation %d (%s %q) for request tag %d, but only %d legal request(s) with that tag were delivered; illegal: %s", n, h.Kind, h.Method, h.Tag, legal, strings.Join(why, "; "))
-	}
 	for _, r := range recs {
 		if r.MustRefuse && r.Conn == h.Conn {
 			e.Violate("excess_stream_reached_handler", "a handler ran for conn %d stream %d (tag %d) although %d >= MaxConcurrentStreams=%d streams were certainly active when its HEADERS arrived", r.Conn, r.Stream, r.Tag, r.SureActive, l.w.cfg.MaxStreams)
+		}
+	}
+}
+
+// checkInvocations: at the end of the run, every handler invocation must be
+// covered by a legal request delivered to the server (the delivery records are
+// complete by then even where the tap reported them late).
+func (l *reqLog) checkInvocations() {
+	e := l.w.e
+	seen := map[uint32]bool{}
+	for _, h := range l.w.Inv {
+		if !h.HaveTag || seen[h.Tag] {
+			continue
+		}
+		seen[h.Tag] = true
+		recs := l.byTag[h.Tag]
+		if len(recs) == 0 {
+			if len(l.intent[h.Tag]) > 0 {
+				continue // reported when it ran
+			}
+			if c := l.conns[h.Conn]; c != nil && c.suspect {
+				e.Probe("handler_request_not_seen_by_lagging_tap")
+				continue
+			}
+			e.Violate("handler_without_request", "a handler (%s %q) ran with request tag %d, but no well-formed request header block with that tag was delivered to the server", h.Kind, h.Method, h.Tag)
+			continue
+		}
+		legal := 0
+		var why []string
+		for _, r := range recs {
+			if len(r.Illegal) == 0 {
+				legal++
+			} else {
+				why = append(why, fmt.Sprintf("conn %d stream %d: %s", r.Conn, r.Stream, strings.Join(r.Illegal, ",")))
+			}
+		}
+		if n := len(l.w.invByTag[h.Tag]); n > legal {
+			e.Violate("handler_for_illegal_request", "%d handler invocation(s) (%s %q) for request tag %d, but only %d legal request(s) with that tag were delivered; illegal: %s", n, h.Kind, h.Method, h.Tag, legal, strings.Join(why, "; "))
 		}
 	}
 }
@@ -439,6 +472,14 @@ func (s *scriptRun) exec(i int, op *POp) {
 	if p == nil {
 		return
 	}
+	defer func() {
+		// after corrupted or hand-made bytes the server's HPACK decoder state may
+		// differ from the peer's encoder state: what later header blocks decode
+		// to is then known only from the tap, not from the peer's intent
+		if len(op.Mut) > 0 || op.Trunc > 0 || op.Op == "raw" || op.Op == "frame" || op.Op == "continuation" {
+			p.desync = true
+		}
+	}()
 	switch op.Op {
 	case "preface":
 		var ss []http2.Setting
@@ -451,7 +492,7 @@ func (s *scriptRun) exec(i int, op *POp) {
 		fields := kvFields(op.Fields)
 		if op.Tag != 0 {
 			fields = append(fields, TagField(op.Tag))
-			if len(op.Mut) == 0 && op.Trunc == 0 {
+			if len(op.Mut) == 0 && op.Trunc == 0 && !p.desync {
 				na := 0
 				for _, f := range fields {
 					if f.Name == ":authority" {
@@ -470,7 +511,11 @@ func (s *scriptRun) exec(i int, op *POp) {
 		for _, f := range HeaderFrames(op.Stream, p.EncodeHeaders(fields), op.EndStream, !op.NoEndHeaders, op.Frags, op.Pad) {
 			b = append(b, f...)
 		}
-		p.Write(mutate(b, op.Mut, op.Trunc))
+		b = mutate(b, op.Mut, op.Trunc)
+		if w.trace {
+			e.Logf("op %d headers bytes %x", i, b)
+		}
+		p.Write(b)
 	case "continuation":
 		var fl http2.Flags
 		if !op.NoEndHeaders {
